@@ -91,6 +91,8 @@ def ev_line(ev, open_types):
         return "<%s%s/>" % (ev[1], " " + ev[2] if ev[2] else "")
     if ev[0] == "c":
         return "</%s>" % open_types[-1]
+    if ev[0] == "i":
+        return "%import " + ev[1]
     raise ValueError(ev)
 
 
@@ -220,3 +222,58 @@ def load_mem(schema, files, main="file:///v/main.conf", overrides=()):
         return ("rejected", e, None)
     except Exception as e:
         return ("internal", e, None)
+
+
+# ---------------------------------------------------------------------------
+# structural digest of a schema object (C12, C13)
+
+def _dt_name(f):
+    return "%s.%s" % (getattr(f, "__module__", "?"),
+                      getattr(f, "__qualname__", getattr(type(f), "__qualname__", "?")))
+
+
+def _default_digest(info):
+    out = []
+    for attr in ("_default", "_rawdefaults"):
+        v = getattr(info, attr, None)
+        out.append((attr, canon_value(v) if v is not None else None))
+    try:
+        out.append(("getdefault", canon_value(info.getdefault())))
+    except Exception as e:          # pragma: no cover
+        out.append(("getdefault", "raises %s" % type(e).__name__))
+    return tuple(out)
+
+
+def schema_digest(schema, component_urls=()):
+    """Everything a later load can depend on, read through public accessors where
+    they exist (private attributes are read defensively with getattr)."""
+    out = []
+    names = sorted(schema.gettypenames())
+    out.append(("types", tuple(names)))
+
+    def container(t):
+        rows = []
+        for key, info in t:
+            row = [key, type(info).__name__, info.name, info.attribute, info.minOccurs, repr(info.maxOccurs),
+                   info.handler, id(info.datatype) if info.datatype is not None else None]
+            if info.issection():
+                row.append(("sectiontype", info.sectiontype.name, id(info.sectiontype)))
+            else:
+                row.append(_default_digest(info))
+            rows.append(tuple(row))
+        return (t.name, id(t.keytype), id(t.datatype), tuple(rows),
+                tuple(getattr(t, "_keymap", {}).keys()), tuple(getattr(t, "_attrmap", {}).keys()))
+
+    for n in names:
+        t = schema.gettype(n)
+        if t.isabstract():
+            out.append(("abstract", n, tuple(t.getsubtypenames()),
+                        tuple((k, id(v)) for k, v in getattr(t, "_subtypes", {}).items())))
+        else:
+            out.append(("concrete", n, id(t), container(t)))
+    out.append(("schema", container(schema), schema.handler, schema.url))
+    out.append(("components", tuple(getattr(schema, "_components", {}).keys()),
+                tuple(schema.hasComponent(u) for u in component_urls)))
+    reg = getattr(schema, "registry", None)
+    out.append(("registry-other", tuple(sorted(getattr(reg, "_other", {}) or ()))))
+    return tuple(out)
